@@ -18,6 +18,8 @@ inductive Token where
   | num (m : Nat) (e : Int)
   | str (bytes : List UInt8)
   | sym (s : String)
+  -- interpolated string `…{e}…`: istart, then literal segments / iopen tokens… iclose, iend
+  | istart | iseg (bytes : List UInt8) | iopen | iclose | iend
   deriving Repr, BEq, Inhabited
 
 def keywords : List String :=
@@ -28,7 +30,7 @@ def keywords : List String :=
 def symbols : List String :=
   ["...", "..=", "//=", "..", "==", "~=", "<=", ">=", "//", "::", "+=", "-=", "*=", "/=", "%=", "^=", "->",
    "+", "-", "*", "/", "%", "^", "#", "<", ">", "=", "(", ")", "{", "}", "[", "]", ";", ":", ",", ".",
-   "?", "|", "&"]
+   "?", "|", "&", "@"]
 
 def isDigit (b : UInt8) : Bool := 48 ≤ b && b ≤ 57
 def isAlpha (b : UInt8) : Bool := (65 ≤ b && b ≤ 90) || (97 ≤ b && b ≤ 122) || b == 95
@@ -74,8 +76,9 @@ def utf8Encode (c : Nat) : List UInt8 :=
   else if c < 0x10000 then [b (0xE0 + c / 4096), b (0x80 + (c / 64) % 64), b (0x80 + c % 64)]
   else [b (0xF0 + c / 262144), b (0x80 + (c / 4096) % 64), b (0x80 + (c / 64) % 64), b (0x80 + c % 64)]
 
-/-- quoted string body after the opening quote -/
-partial def readQuoted (q : UInt8) (bs : List UInt8) (acc : List UInt8) : Except String (List UInt8 × List UInt8) :=
+/-- body of a quoted string after the opening quote, up to `q` or `q2` (the second stop
+character serves interpolated strings: backtick and `{`); returns the stop character too -/
+partial def readQuoted2 (q q2 : UInt8) (bs : List UInt8) (acc : List UInt8) : Except String (List UInt8 × UInt8 × List UInt8) :=
   match bs with
   | [] => .error "unfinished string"
   | 10 :: _ => .error "unfinished string (newline)"
@@ -83,16 +86,17 @@ partial def readQuoted (q : UInt8) (bs : List UInt8) (acc : List UInt8) : Except
     match rest with
     | [] => .error "unfinished escape"
     | e :: rest' =>
-      let simple (v : UInt8) := readQuoted q rest' (v :: acc)
+      let simple (v : UInt8) := readQuoted2 q q2 rest' (v :: acc)
       if e == 97 then simple 7 else if e == 98 then simple 8 else if e == 102 then simple 12
       else if e == 110 then simple 10 else if e == 114 then simple 13 else if e == 116 then simple 9
       else if e == 118 then simple 11 else if e == 92 then simple 92 else if e == 34 then simple 34
       else if e == 39 then simple 39 else if e == 10 then simple 10
-      else if e == 122 then readQuoted q (rest'.dropWhile isSpace) acc
+      else if e == 123 then simple 123 else if e == 96 then simple 96
+      else if e == 122 then readQuoted2 q q2 (rest'.dropWhile isSpace) acc
       else if e == 120 then
         match rest' with
         | h1 :: h2 :: rest'' =>
-          if isHex h1 && isHex h2 then readQuoted q rest'' (UInt8.ofNat (hexValue h1 * 16 + hexValue h2) :: acc)
+          if isHex h1 && isHex h2 then readQuoted2 q q2 rest'' (UInt8.ofNat (hexValue h1 * 16 + hexValue h2) :: acc)
           else .error "bad \\x escape"
         | _ => .error "bad \\x escape"
       else if e == 117 then
@@ -104,16 +108,21 @@ partial def readQuoted (q : UInt8) (bs : List UInt8) (acc : List UInt8) : Except
             if digits.isEmpty then .error "bad \\u escape"
             else
               let v := digits.foldl (fun a d => a * 16 + hexValue d) 0
-              readQuoted q rest3 ((utf8Encode v).reverse ++ acc)
+              readQuoted2 q q2 rest3 ((utf8Encode v).reverse ++ acc)
           | _ => .error "bad \\u escape"
         | _ => .error "bad \\u escape"
       else if isDigit e then
         let ds := (e :: rest').take 3 |>.takeWhile isDigit
         let v := ds.foldl (fun a d => a * 10 + (d.toNat - 48)) 0
         if v > 255 then .error "escape too large"
-        else readQuoted q ((e :: rest').drop ds.length) (UInt8.ofNat v :: acc)
+        else readQuoted2 q q2 ((e :: rest').drop ds.length) (UInt8.ofNat v :: acc)
       else .error s!"invalid escape \\{Char.ofNat e.toNat}"
-  | b :: rest => if b == q then .ok (acc.reverse, rest) else readQuoted q rest (b :: acc)
+  | b :: rest => if b == q || b == q2 then .ok (acc.reverse, b, rest) else readQuoted2 q q2 rest (b :: acc)
+
+def readQuoted (q : UInt8) (bs : List UInt8) (acc : List UInt8) : Except String (List UInt8 × List UInt8) :=
+  match readQuoted2 q q bs acc with
+  | .ok (s, _, r) => .ok (s, r)
+  | .error e => .error e
 
 def normNum (m : Nat) (e : Int) : Token :=
   if m == 0 then .num 0 0
@@ -169,27 +178,29 @@ where
 def newlinesConsumed (before after : List UInt8) : Nat :=
   ((before.take (before.length - after.length)).filter (· == 10)).length
 
-/-- Tokens paired with the line on which they END (`llex.c` `linenumber` once the token is
+/-! Tokens are paired with the line on which they END (`llex.c` `linenumber` once the token is
 read): the parser needs it for `lparser.c` `funcargs`' rule that the `(` of call arguments
-must be on the line where the prefix expression ended. -/
-partial def lex (bs : List UInt8) (line : Nat) (acc : Array (Token × Nat)) : Except String (Array (Token × Nat)) :=
+must be on the line where the prefix expression ended. `modes` is the stack of brace depths of
+the interpolation values being read. -/
+mutual
+partial def lex (bs : List UInt8) (line : Nat) (modes : List Nat) (acc : Array (Token × Nat)) : Except String (Array (Token × Nat)) :=
   match bs with
   | [] => .ok acc
   | b :: rest =>
-    if isSpace b then lex rest (if b == 10 then line + 1 else line) acc
+    if isSpace b then lex rest (if b == 10 then line + 1 else line) modes acc
     else if b == 45 && rest.head? == some 45 then
       -- comment
       let after := rest.drop 1
       match longBracketLevel after with
       | some level =>
         match readLong level (after.drop (level + 2)) [] with
-        | some (_, r) => lex r (line + newlinesConsumed bs r) acc
+        | some (_, r) => lex r (line + newlinesConsumed bs r) modes acc
         | none => .error "unfinished long comment"
-      | none => lex (after.dropWhile (· != 10)) line acc
+      | none => lex (after.dropWhile (· != 10)) line modes acc
     else if isAlpha b then
       let word := bs.takeWhile isAlnum
       let s := bytesToString word
-      lex (bs.drop word.length) line (acc.push (if keywords.contains s then .kw s else .name s, line))
+      lex (bs.drop word.length) line modes (acc.push (if keywords.contains s then .kw s else .name s, line))
     else if isDigit b || (b == 46 && (rest.head?.map isDigit).getD false) then
       -- Lua 5.1 read_numeral: digits and dots, optional exponent sign, then alphanumerics
       let p1 := bs.takeWhile (fun c => isDigit c || c == 46)
@@ -203,15 +214,23 @@ partial def lex (bs : List UInt8) (line : Nat) (acc : Array (Token × Nat)) : Ex
       let p3 := r2.takeWhile isAlnum
       let raw := p1 ++ p2 ++ p3
       match numeralValue raw with
-      | .ok t => lex (r2.drop p3.length) line (acc.push (t, line))
+      | .ok t => lex (r2.drop p3.length) line modes (acc.push (t, line))
       | .error e => .error (e ++ " near " ++ bytesToString raw)
     else if b == 34 || b == 39 then
       match readQuoted b rest [] with
       | .ok (s, r) =>
         let line' := line + newlinesConsumed bs r
-        lex r line' (acc.push (.str s, line'))
+        lex r line' modes (acc.push (.str s, line'))
       | .error e => .error e
-    else if b == 96 then .error "interpolated strings are outside the core"
+    else if b == 96 then lexInterp rest line modes (acc.push (.istart, line))
+    else if b == 123 && !modes.isEmpty then
+      -- a brace inside an interpolation value: count it
+      lex rest line (match modes with | d :: ms => (d + 1) :: ms | [] => []) (acc.push (.sym "{", line))
+    else if b == 125 && !modes.isEmpty then
+      match modes with
+      | 0 :: ms => lexInterp rest line ms (acc.push (.iclose, line))
+      | d :: ms => lex rest line ((d - 1) :: ms) (acc.push (.sym "}", line))
+      | [] => .error "unreachable"
     else
       match longBracketLevel bs with
       | some level =>
@@ -224,12 +243,26 @@ partial def lex (bs : List UInt8) (line : Nat) (acc : Array (Token × Nat)) : Ex
         match readLong level body [] with
         | some (s, r) =>
           let line' := line + newlinesConsumed bs r
-          lex r line' (acc.push (.str s, line'))
+          lex r line' modes (acc.push (.str s, line'))
         | none => .error "unfinished long string"
       | none =>
         match symbols.find? (startsWith bs) with
-        | some s => lex (bs.drop s.length) line (acc.push (.sym s, line))
+        | some s => lex (bs.drop s.length) line modes (acc.push (.sym s, line))
         | none => .error s!"unexpected byte {b}"
+
+/-- inside an interpolated string, after the opening backtick or after a `}`: a literal segment
+up to the closing backtick or the next `{` -/
+partial def lexInterp (bs : List UInt8) (line : Nat) (modes : List Nat) (acc : Array (Token × Nat)) : Except String (Array (Token × Nat)) :=
+  match readQuoted2 96 123 bs [] with
+  | .error e => .error e
+  | .ok (seg, stop, r) =>
+    let line' := line + newlinesConsumed bs r
+    let acc := acc.push (.iseg seg, line')
+    if stop == 96 then lex r line' modes (acc.push (.iend, line'))
+    else
+      if r.head? == some 123 then .error "`{{` in an interpolated string"
+      else lex r line' (0 :: modes) (acc.push (.iopen, line'))
+end
 
 /-! ### parser -/
 
@@ -256,6 +289,7 @@ def tokStr : Token → String
   | .num m e => s!"<num {m}e{e}>"
   | .str _ => "<string>"
   | .sym s => s
+  | .istart => "`" | .iseg _ => "<segment>" | .iopen => "{" | .iclose => "}" | .iend => "`"
 def fail {α} (msg : String) : P α := do
   let ts := (← get).toks.map (·.1)
   throw s!"{msg} near `{" ".intercalate ((ts.take 3).map tokStr)}`"
@@ -348,10 +382,31 @@ partial def simpleExpr : P String := do
     | some (.kw "true") => do advance; pure "true"
     | some (.kw "false") => do advance; pure "false"
     | some (.sym "...") => do advance; pure "varargs"
+    | some .istart => do
+      advance
+      let mut parts : Array String := #[]
+      repeat
+        match ← peek with
+        | some (.iseg bytes) => advance; parts := parts.push (par ["seg", bytesToHex bytes])
+        | some .iopen =>
+          advance
+          let v ← expr 0
+          match ← peek with
+          | some .iclose => advance
+          | _ => fail "expected } of the interpolated value"
+          parts := parts.push (par ["val", v])
+        | some .iend => advance; break
+        | _ => fail "unfinished interpolated string"
+      pure (par ("interp" :: parts.toList))
     | some (.sym "{") => do
       let entries ← tableCons
       pure (par ("table" :: entries))
     | some (.kw "function") => do advance; funcBody
+    | some (.sym "@") => do
+      let attrs ← attributes
+      expectKw "function"
+      let f ← funcBody
+      pure (par ["attrs", par attrs, f])
     | some (.kw "if") => do
       advance
       let c ← expr 0
@@ -399,13 +454,40 @@ partial def primaryExpr : P String := do
     | some (.sym ":") =>
       advance
       let m ← expectName
-      let a ← callArgs
-      e := par ["mcall", e, m, a]
+      if (← isSym "<") && (← peek2) == some (.sym "<") then
+        let types ← instTypes
+        let a ← callArgs
+        e := par ["mcallinst", e, m, par types, a]
+      else
+        let a ← callArgs
+        e := par ["mcall", e, m, a]
+    | some (.sym "<") =>
+      -- explicit type instantiation `prefix<<T, ...>>` (Luau): the result is a prefix expression
+      if (← peek2) == some (.sym "<") then
+        let types ← instTypes
+        e := par ("inst" :: e :: types)
+      else break
     | some (.sym "(") | some (.sym "{") | some (.str _) =>
       let a ← callArgs
       e := par ["call", e, a]
     | _ => break
   return e
+
+/-- `@name` attributes (Luau) in front of a function -/
+partial def attributes : P (List String) := do
+  let mut names : Array String := #[]
+  repeat
+    if ← acceptSym "@" then names := names.push (← expectName) else break
+  return names.toList
+
+/-- `<<T, ...>>` -/
+partial def instTypes : P (List String) := do
+  expectSym "<"; expectSym "<"
+  let mut types := #[← parseType]
+  repeat
+    if ← acceptSym "," then types := types.push (← parseType) else break
+  expectSym ">"; expectSym ">"
+  return types.toList
 
 partial def callArgs : P String := do
   match ← peek with
@@ -498,7 +580,10 @@ partial def parseGenerics : P (List String) := do
   repeat
     let n ← expectName
     if ← acceptSym "..." then
-      items := items.push (par ["pack", n])
+      if ← acceptSym "=" then
+        items := items.push (par ["packdef", n, ← returnOrArg])
+      else
+        items := items.push (par ["pack", n])
     else if ← acceptSym "=" then
       let t ← parseType
       items := items.push (par ["def", n, t])
@@ -620,6 +705,8 @@ partial def simpleType : P String := do
       match ← peek, ← peek2 with
       | some (.name _), some (.sym ":") => pure true
       | some (.sym "["), _ => pure true
+      | some (.name m), some (.name _) => pure (m == "read" || m == "write")
+      | some (.name m), some (.sym "[") => pure (m == "read" || m == "write")
       | _, _ => pure false
     if !isEntry then
       let t ← parseType
@@ -649,6 +736,32 @@ partial def simpleType : P String := do
       | some (.name n), some (.sym ":") =>
         advance; advance
         entries := entries.push (par ["prop", n, ← parseType])
+      | some (.name m), _ =>
+        -- `read` / `write` modifier in front of an entry
+        if m == "read" || m == "write" then
+          advance
+          match ← peek, ← peek2 with
+          | some (.name n), some (.sym ":") =>
+            advance; advance
+            entries := entries.push (par ["mod", m, par ["prop", n, ← parseType]])
+          | some (.sym "["), some (.str s) =>
+            advance; advance
+            if ← acceptSym "]" then
+              expectSym ":"
+              entries := entries.push (par ["mod", m, par ["lit", bytesToHex s, ← parseType]])
+            else
+              let k ← typeTail "" (← postfixType (some (par ["tstr", bytesToHex s])))
+              expectSym "]"
+              expectSym ":"
+              entries := entries.push (par ["mod", m, par ["indexer", k, ← parseType]])
+          | some (.sym "["), _ =>
+            advance
+            let k ← parseType
+            expectSym "]"
+            expectSym ":"
+            entries := entries.push (par ["mod", m, par ["indexer", k, ← parseType]])
+          | _, _ => fail "table type entry expected after the modifier"
+        else fail "table type entry expected"
       | _, _ => fail "table type entry expected"
       if ← acceptSym "," then continue
       if ← acceptSym ";" then continue
@@ -712,6 +825,22 @@ partial def block : P String := do
   return par ("block" :: items.toList)
 
 partial def statement : P String := do
+  if ← isSym "@" then
+    let attrs ← attributes
+    let wrap (f : String) := par ["attrs", par attrs, f]
+    if ← acceptKw "local" then
+      expectKw "function"
+      let n ← expectName
+      let f ← funcBody
+      return par ["localfn", n, wrap f]
+    expectKw "function"
+    let mut names := #[← expectName]
+    let mut method := "-"
+    repeat
+      if ← acceptSym "." then names := names.push (← expectName) else break
+    if ← acceptSym ":" then method ← expectName
+    let f ← funcBody
+    return par ["function", par names.toList, method, wrap f]
   match ← peek with
   | some (.kw "do") =>
     advance
@@ -753,7 +882,11 @@ partial def statement : P String := do
     return par ["if", par branches.toList, elseBlock]
   | some (.kw "for") =>
     advance
-    let first ← expectName
+    let typedName : P (String × String) := do
+      let n ← expectName
+      let t ← if ← acceptSym ":" then parseType else pure "-"
+      return (n, t)
+    let first ← typedName
     if ← acceptSym "=" then
       let a ← expr 0
       expectSym ","
@@ -762,17 +895,20 @@ partial def statement : P String := do
       expectKw "do"
       let body ← block
       expectKw "end"
-      return par ["nfor", first, a, b, step, body]
+      if first.2 != "-" then return par ["nfort", first.1, first.2, a, b, step, body]
+      return par ["nfor", first.1, a, b, step, body]
     else
       let mut names := #[first]
       repeat
-        if ← acceptSym "," then names := names.push (← expectName) else break
+        if ← acceptSym "," then names := names.push (← typedName) else break
       expectKw "in"
       let es ← exprList
       expectKw "do"
       let body ← block
       expectKw "end"
-      return par ["gfor", par names.toList, par es, body]
+      if names.any (fun p => p.2 != "-") then
+        return par ["gfort", par (names.toList.map fun p => par [p.1, p.2]), par es, body]
+      return par ["gfor", par (names.toList.map (·.1)), par es, body]
   | some (.kw "function") =>
     advance
     let mut names := #[← expectName]
@@ -804,10 +940,15 @@ partial def statement : P String := do
     let declaration ← do
       match ← peek, ← peek2 with
       | some (.name "type"), some (.name _) => pure (some "loc")
+      | some (.name "type"), some (.kw "function") => pure (some "loc")
       | some (.name "export"), some (.name "type") => advance; pure (some "exp")
       | _, _ => pure none
     if let some exported := declaration then
       advance
+      if ← acceptKw "function" then
+        let name ← expectName
+        let f ← funcBody
+        return par ["typefunction", exported, name, f]
       let name ← expectName
       let generics ← if ← isSym "<" then parseGenerics else pure []
       expectSym "="
@@ -832,13 +973,13 @@ partial def statement : P String := do
           if !(v.startsWith "(id " || v.startsWith "(field " || v.startsWith "(index ") then fail "cannot assign"
         return par ["assign", par vars.toList, par values]
       else
-        if e.startsWith "(call " || e.startsWith "(mcall " then return par ["callst", e]
+        if e.startsWith "(call " || e.startsWith "(mcall " || e.startsWith "(mcallinst " then return par ["callst", e]
         else fail "syntax error: expression is not a statement"
 end
 
 /-- bytes → block S-expression, or `err <message>` -/
 def parseChunk (bs : List UInt8) : String :=
-  match lex bs 1 #[] with
+  match lex bs 1 [] #[] with
   | .error e => "err lex: " ++ e
   | .ok toks =>
     match (block.run { toks := toks.toList, lastLine := 1 }) with
